@@ -12,10 +12,20 @@ Tie (route C).  Three harnesses, corpus first:
       (Properties/C14.v (7)) is evaluated on its output: unique labels, features
       >= separation apart, added features within search_range of a feature of
       the memory+1 preceding frames, outside the margin, finite mass >= minmass.
-  (C) completeness (monitor only, no theorem): on movies of well-separated
-      blobs moving < search_range, every blob must be present in every frame
-      under one label whatever was withheld after the first frame; with nothing
-      withheld the output must equal detect-then-link.
+  (C) completeness: on movies of well-separated blobs moving < search_range,
+      every blob must be present in every frame under one label whatever was
+      withheld after the first frame; with nothing withheld the output must
+      equal detect-then-link.
+  (D) completeness, theorem-backed (Properties/C14.v (9)-(13)): the boolean
+      hypotheses of C14_movie_complete (first frame complete, moves_b, cross_b,
+      given_b) plus the two geometric conditions the image-search oracle needs
+      (blobs outside the margin, >= separation apart) are evaluated IN COQ
+      (Model/FindLink2.complete_code) on the true tracks and the detections
+      handed to the linker of EVERY generated movie, whatever its kind; where
+      they hold (tallied) the implementation's output must hold every blob in
+      every frame under one label and nothing else.  The oracle hypothesis
+      [finds] itself (the image search re-finds a blob) is not evaluated: it is
+      what the run tests.
 """
 import math
 import numpy as np
@@ -38,6 +48,22 @@ CAND_CODES = {
     4: 'candidates are not ordered by decreasing mass',
 }
 MOVIE_FUNC = "fun c => match c with (mp, frames) => check_movie mp frames end"
+IMPORTS2 = "From TP Require Import Model.Assign Model.Link Model.Dilation Model.FindLink Model.FindLinkCheck Model.FindLink2."
+COMPLETE_FUNC = "fun c => match c with (cp, B0, g0, frames, out) => complete_code cp B0 g0 frames out end"
+HYP_CODES = {
+    11: 'first frame not complete (detections of frame 0 are not exactly the blobs)',
+    12: 'a blob moves farther than search_range',
+    13: 'a blob comes within search_range of the previous position of another blob',
+    14: 'the linker was given something that is not a blob',
+    15: 'a blob inside the margin / two blobs closer than separation',
+}
+COMPLETE_CODES = {
+    2: 'a blob is missing from a frame',
+    3: 'a blob changes its label along its trajectory',
+    4: 'a frame holds a different number of features than there are blobs',
+    5: 'the output has a different number of frames than the movie',
+}
+SIG_COMPLETE = "find_link: incomplete trajectories although the hypotheses of C14_movie_complete hold"
 MOVIE_CODES = {
     1: 'a label occurs twice in a frame',
     2: 'two features of a frame closer than separation',
@@ -304,7 +330,7 @@ def gen_movie(rng, tier, kind=None):
     if minmass is None:
         minmass = int(0.4 * amp * 2 * math.pi * sig * sig * 0.6)
     return dict(kind=kind, frames=frames, tracks=tracks, sr=sr, sep=sep, dia=dia, rad=rad, memory=mem, preprocess=pre,
-                minmass=minmass, pw=pw, wseed=rng.randint(0, 2 ** 30))
+                minmass=minmass, pw=pw, wseed=rng.randint(0, 2 ** 30), noise=noise_kind)
 
 
 def run_movie(c, withhold=True):
@@ -379,7 +405,7 @@ def movie_term(c, rows, initial):
 def movie_json(c, rows, initial):
     wh = {str(t): [list(p) for p in v['detected'] if p not in set(v['given'])] for t, v in initial.items() if t >= 1}
     return dict(kind='movie', movie_kind=c['kind'], frames=[f.tolist() for f in c['frames']], search_range=c['sr'], separation=c['sep'],
-                diameter=c['dia'], memory=c['memory'], preprocess=c['preprocess'], minmass=c['minmass'], withhold=wh,
+                diameter=c['dia'], memory=c['memory'], preprocess=c['preprocess'], minmass=c['minmass'], withhold=wh, noise=c.get('noise', 'none'),
                 tracks=[[None if p is None else list(p) for p in tr] for tr in c['tracks']],
                 impl_output={str(t): [[list(r['pos']), r['label'], None if r['mass'] != r['mass'] else r['mass']] for r in rs] for t, rs in rows.items()})
 
@@ -387,8 +413,42 @@ def movie_json(c, rows, initial):
 def movie_from_json(j):
     return dict(kind=j['movie_kind'], frames=[np.array(f, dtype=np.uint8) for f in j['frames']], sr=j['search_range'], sep=j['separation'],
                 dia=j['diameter'], rad=int(j['separation'] // 2) if j['diameter'] is None else j['diameter'] // 2, memory=j['memory'],
-                preprocess=j['preprocess'], minmass=j['minmass'], pw=0.0, wseed=0, withhold=j['withhold'],
+                preprocess=j['preprocess'], minmass=j['minmass'], pw=0.0, wseed=0, withhold=j['withhold'], noise=j.get('noise', 'none'),
                 tracks=[[None if p is None else tuple(p) for p in tr] for tr in j['tracks']])
+
+
+def full_tracks(c):
+    """the movie comes with a true position for every blob in every frame"""
+    n = len(c['frames'])
+    return bool(c['tracks']) and all(len(tr) == n and all(p is not None for p in tr) for tr in c['tracks'])
+
+
+def complete_term(c, rows, initial):
+    """case term of Model/FindLink2.complete_code: parameters, true blobs, what the linker was given, the output"""
+    k = G.scale_of(Fraction(c['sr']), Fraction(c['sep']))
+    srk = int(Fraction(c['sr']) * k)
+    sepk = int(Fraction(c['sep']) * k)
+    shape = c['frames'][0].shape
+    cp = ("{| c_met := {| mw := [%s; %s]; mR2 := %s |}; c_k := %s; c_sepk := %s; c_rad := %s; c_shape := %s |}"
+          % (cZ(k * k), cZ(k * k), cZ(srk * srk), cZ(k), cZ(sepk), cZ(c['rad']), G.cpt(shape)))
+    n = len(c['frames'])
+    B = [[tr[t] for tr in c['tracks']] for t in range(n)]
+    given = [initial.get(t, dict(given=[]))['given'] for t in range(n)]
+    frs = clist(["(%s, %s)" % (G.cpts(B[t]), G.cpts(given[t])) for t in range(1, n)])
+    out = []
+    for t in range(n):
+        fs = ["(%s, %s)" % (cnat(r['label']), G.cpt((int(r['pos'][0]), int(r['pos'][1])))) for r in rows[t]]
+        out.append("(%s : list (nat * list Z))" % clist(fs) if fs else "(@nil (nat * list Z))")
+    return "(%s, %s, %s, %s, %s)" % (cp, G.cpts(B[0]), G.cpts(given[0]), frs, clist(out))
+
+
+def oracle_regime(c):
+    """where the image search can be expected to re-find a blob that satisfies the geometric hypotheses: the
+    kinds built for completeness, and otherwise no minmass cut (relocated features are weighed in the masked,
+    possibly preprocessed image: a cut there is a parameter choice that defeats relocation) and at most low noise"""
+    if c['kind'] in ('complete', 'dense', 'diagonal'):
+        return True
+    return c['minmass'] == 0 and c.get('noise', 'none') in ('none', 'low')
 
 
 def completeness(c, rows):
@@ -511,7 +571,11 @@ def eval_movies(chk, movies, tag):
         runs.append((c, rows, initial))
         terms.append(movie_term(c, rows, initial))
     res = common.coq_eval_lists(chk.work, IMPORTS, MOVIE_FUNC, terms, shard=60, tag=tag)
-    for (c, rows, initial), r in zip(runs, res):
+    # (D) hypotheses of the completeness theorem evaluated in Coq; completeness demanded where they hold
+    cidx = [i for i, (c, rows, initial) in enumerate(runs) if full_tracks(c)]
+    cres = common.coq_eval_lists(chk.work, IMPORTS2, COMPLETE_FUNC, [complete_term(*runs[i]) for i in cidx], shard=100, tag=tag + 'c')
+    ccode = dict(zip(cidx, cres))
+    for k, ((c, rows, initial), r) in enumerate(zip(runs, res)):
         nadded = sum(1 for t in rows if t >= 1 for x in rows[t] if (int(x['pos'][0]), int(x['pos'][1])) not in set(initial.get(t, dict(given=[]))['given']))
         nwith = sum(len(v['detected']) - len(v['given']) for t, v in initial.items() if t >= 1)
         chk.count(('movie', movie_json(c, rows, initial)), nadded >= 1)
@@ -522,8 +586,10 @@ def eval_movies(chk, movies, tag):
         if r != 0:
             chk.violation('find_link: %s' % MOVIE_CODES.get(r, r), 'find_link (%s movie, memory=%d, preprocess=%s): %s' % (c['kind'], c['memory'], c['preprocess'], MOVIE_CODES.get(r, r)),
                           dict(code=r, **movie_json(c, rows, initial)))
+        legacy = False
         if c['kind'] in ('complete', 'dense', 'diagonal'):
             msg = completeness(c, rows)
+            legacy = bool(msg)
             if msg:
                 chk.violation('find_link: incomplete trajectories on a well-separated blob movie', 'find_link (withheld %d detections): %s' % (nwith, msg),
                               dict(code=100, **movie_json(c, rows, initial)))
@@ -532,6 +598,20 @@ def eval_movies(chk, movies, tag):
                 msg = same_partition(rows, detect_then_link(c, initial))
                 if msg:
                     chk.violation('find_link: differs from detect-then-link although nothing was withheld', msg, dict(code=101, **movie_json(c, rows, initial)))
+        if k in ccode:
+            cc = ccode[k]
+            if cc in HYP_CODES:
+                chk.tally('completeness hypotheses (Coq): fail -- %s' % HYP_CODES[cc])
+            elif not oracle_regime(c):
+                chk.tally('completeness hypotheses (Coq): hold, not demanded (minmass cut / noise: oracle hypothesis not granted)')
+            else:
+                chk.tally('completeness hypotheses (Coq): hold -- completeness demanded (%s, withheld %s)' % (
+                    'kind ' + c['kind'] if c['kind'] in ('complete', 'diagonal') else 'other kinds', 'some' if nwith else 'nothing'))
+                if cc != 0 and not legacy:
+                    chk.violation(SIG_COMPLETE, 'find_link (%s movie, withheld %d detections, memory=%d, preprocess=%s): %s' % (
+                        c['kind'], nwith, c['memory'], c['preprocess'], COMPLETE_CODES.get(cc, cc)), dict(code=200 + cc, **movie_json(c, rows, initial)))
+        else:
+            chk.tally('completeness hypotheses (Coq): not evaluated (movie without full true tracks)')
     return runs
 
 
@@ -566,9 +646,11 @@ def run(chk):
         "non-trivial = the model finds >= 1 candidate; (B) find_link on 2-4 frame movies (well-separated random-walking blobs, pairs approaching to "
         "around separation, two lost features of different subnets moving towards each other, features walking into the margin, vanishing/appearing "
         "blobs, noise textures), detections withheld after the first frame with probability 0/0.3/0.6/1 via before_link, memory 0-2, preprocess on/off: "
-        "non-trivial = find_link added >= 1 feature; (C) completeness + detect-then-link equality on the well-separated movies")
+        "non-trivial = find_link added >= 1 feature; (C) completeness + detect-then-link equality on the well-separated movies; "
+        "(D) the boolean hypotheses of C14_movie_complete (first frame complete, moves_b, cross_b, given_b; margin and separation for the image oracle) "
+        "evaluated in Coq (complete_code) on the true tracks and given detections of every movie with full tracks; completeness demanded where they hold (tallied)")
     chk.assumptions += [
-        "COMPLETENESS half of C14 (complete trajectories whatever is withheld; equals detect-then-link) is monitored on generated blob movies only: no theorem (analytic statement about blob images, like C05)",
+        "COMPLETENESS half of C14: proved for the model with the image search abstracted into a relocation oracle (C14_movie_complete, C14_equals_detect_then_link); the oracle hypothesis [finds] -- FindLinker's image search returns exactly the unknown blobs within search_range -- is an analytic statement about blob images (like C05): checked by enumeration on one example in Coq, otherwise only tested by these runs (on the movies whose tracks satisfy the boolean hypotheses, evaluated in Coq)",
         "model scope: isotropic search_range/separation/diameter, 2-D integer images, integer pixel coordinates (refine=False, no predictor); anisotropic parameters and 3-D are not covered",
         "np.percentile (the frame threshold is handed to the model), cKDTree queries, scipy grey_dilation (as C06), np.argsort on equal masses (compared modulo ties) are modelled, not verified",
         "float mask tests (x/R)**2+(y/R)**2 <= 1 agree with the exact ones except on 5-12-13 lattice points (radii 13, 26, 39: kept out of the model comparison, counted)",
